@@ -1760,6 +1760,62 @@ func (s *bucketSubject) queries(r *rand.Rand, probes [][]byte) {
 		}
 		return showPairs(ps)
 	})
+	// CollectKVs with SUBSETS of the values (round 12): the early return once the wanted set is empty, wanted
+	// values spread over several tries, wanted values nobody has, the empty set
+	if len(all) > 0 {
+		maxv := uint32(0)
+		for _, p := range all {
+			if p.v > maxv {
+				maxv = p.v
+			}
+		}
+		pick := func(n int) []uint32 {
+			var out []uint32
+			for _, i := range r.Perm(len(all)) {
+				if len(out) >= n {
+					break
+				}
+				out = append(out, all[i].v)
+			}
+			return out
+		}
+		wanted := [][]uint32{
+			{all[0].v}, {all[len(all)-1].v}, pick(1), pick(2 + r.Intn(5)), pick(1 + len(all)/2),
+			append(pick(2), maxv+1, maxv+77), {maxv + 5}, {},
+		}
+		for _, w := range wanted {
+			ws := make([]string, len(w))
+			in := map[uint32]bool{}
+			for i, x := range w {
+				ws[i] = strconv.Itoa(int(x))
+				in[x] = true
+			}
+			var want []pair
+			for _, p := range all {
+				if in[p.v] {
+					want = append(want, p)
+				}
+			}
+			c.Guard(strings.TrimSpace("bcollect "+strings.Join(ws, " ")), func() string {
+				bm := roaring.New()
+				for _, x := range w {
+					bm.Add(x)
+				}
+				res := map[uint32]string{}
+				s.b.CollectKVs(bm, res)
+				var ps []pair
+				for v, k := range res {
+					ps = append(ps, pair{[]byte(k), v})
+				}
+				sort.Slice(ps, func(i, j int) bool { return bytes.Compare(ps[i].k, ps[j].k) < 0 })
+				if !samePairs(ps, want) {
+					c.Fail("bucket-collect-mismatch", fmt.Sprintf("[%s] CollectKVs(%d wanted values) returned %d pairs, the union has %d pairs with these values (or they differ)", s.tag, len(w), len(ps), len(want)))
+				}
+				return showPairs(ps)
+			})
+		}
+		c.Branch("bucket-collect-subsets")
+	}
 	for i, p := range probes {
 		if i >= 8 {
 			break
